@@ -1,6 +1,6 @@
 """C02 -- edge errors and chi^2 implement the documented measurement model (vs. the checker's reference model)."""
 from ..poly import Poly
-from ..interp import ga, sa, Arr, Pose, Obj, sym_vec, sym_mat, PI
+from ..interp import ga, sa, Arr, Pose, Obj, sym_vec, sym_mat, PI, sym_pose
 from ..algebra import (CONFIGS, CDIM, cfg_name, run_obligation, run_tasks, record, ObFail, require_same, nterms, sym_config,
                        make_edge, ref_R_t, ref_rot, ham, conj, matvec, transpose, matmul, no_bad_wrap)
 
